@@ -92,6 +92,8 @@ SOUP_TOKENS = [
     ".text", ".ascii", ".table", ".incbin", ".include", ".include_ips", ".struct", ".istruct", "name", "name:", "name.sub", "m(", "m()", "m(1, 2)", ":=", "=", "*=", "@=", "+", "-", "*", "&",
     "|", "<<", ">>", "==", "!=", "<", ">", "~", ".", ":", "\\", "?", "\0", "\t", "\n", "\n", "identifier=1", "bank_range=0,1", "é", "x := 1", "i := 0, 2",
 ]  # fmt: skip
+SOUP_TOKENS += [c for c in "!\"#$%&'()*+,-./:;<=>?@[\\]^_`{|}~"]  # every ASCII punctuation character on its own
+SOUP_TOKENS += ["lda #1 %", "lda (", "lda [", "lda #(", "lda.w #A %", ".db 1 %", "'main.s'", ".include 'main.s'", "a.b.c", "a..b", "0x", "0b", "0o7", "1e5", "lda.", "lda.w", ".", "..", ".db", ".db ,", ",,", "{{ x", "x }}", "*=", "@= 1", "x :=", "x =", "m(,)", "m((", "))"]
 
 
 def lexical_bucket(text: bytes, at: int) -> str:
@@ -189,6 +191,16 @@ def apply_fault(data: bytes, f: dict[str, Any]) -> bytes:
         return data[:p] + bytes([new]) + data[p + 1 :]
     if k == "nul":
         return data[: f["a"]] + b"\0" * (f["b"] - f["a"]) + data[f["b"] :]
+    if k == "garbage":
+        # a run of arbitrary bytes (corrupted sector); digits are never created or altered
+        rng = random.Random(f["seed"])
+        out = bytearray(data)
+        for p in range(f["a"], min(n, f["b"])):
+            new = rng.randrange(1, 256) if rng.random() < 0.5 else ord(rng.choice("!\"#$%&'()*+,-./:;<=>?@[\\]^_`{|}~ \n\t"))
+            if chr(out[p]).isdigit() or chr(new).isdigit():
+                continue
+            out[p] = new
+        return bytes(out)
     raise ValueError(k)
 
 
@@ -309,7 +321,10 @@ def fault_menu(data: bytes, rng: random.Random, n_seeded: int) -> Iterator[list[
     toks = token_spans(data)
 
     def one() -> dict[str, Any]:
-        k = rng.choice(["lose", "lose", "dup", "dup", "swap", "flip", "nul", "truncate"])
+        k = rng.choice(["lose", "lose", "dup", "dup", "swap", "flip", "nul", "truncate", "garbage", "garbage"])
+        if k == "garbage":
+            a = rng.randrange(n)
+            return {"kind": "garbage", "a": a, "b": min(n, a + rng.choice([1, 1, 2, 4, 16])), "seed": rng.getrandbits(32)}
         tokgran = rng.random() < 0.5 and len(toks) >= 4
         if k == "truncate":
             return {"kind": "truncate", "at": rng.randrange(n)}
